@@ -620,6 +620,30 @@ theorem needs_full_sync_spec (fullIvl retryIvl sinceFull : Int) (sinceErr : Opti
 example : needsFullSync 3600 60 9223372036 none = true ∧ needsFullSync 3600 60 10 none = false ∧
     needsFullSync 3600 60 10 (some 61) = true ∧ needsFullSync 3600 60 99999 (some 5) = false := by decide
 
+/-! ### Round 5: a panic inside `Refresh` and the refresh worker -/
+
+/-- **worker_panic_stops_sync.** `refreshInALoop` recovers outside its loop: once a `Refresh` of
+the worker has panicked, whatever the backend sends later (`later`, arbitrary) never reaches the
+database — after any history `pre`, the database (hence every look-up) stays what the ticks before
+the panic made it. -/
+theorem worker_panic_stops_sync (pre : List Ev) (before later : List Ev) :
+    runEv (pre ++ workerEvs (before.map Tick.ev ++ Tick.panic :: later.map Tick.ev)) =
+      runEv (pre ++ before) := by
+  have h : ∀ l : List Ev, ∀ r, workerEvs (l.map Tick.ev ++ Tick.panic :: r) = l := by
+    intro l r
+    induction l with
+    | nil => simp [workerEvs]
+    | cons e l ih => simp [workerEvs, ih]
+  rw [h]
+
+/-- **worker_without_panic_applies_all.** A worker none of whose refreshes panics leaves every one
+of them in the history (so the history theorems speak about everything the backend sent). -/
+theorem worker_without_panic_applies_all (evs : List Ev) :
+    workerEvs (evs.map (tickOf false)) = evs := by
+  induction evs with
+  | nil => simp [workerEvs]
+  | cons e l ih => simp [workerEvs, tickOf, ih]
+
 end Agd.ProfileDB
 
 namespace Agd.ProfileCache
@@ -836,7 +860,94 @@ example : (Ratelimiter.default [] 100 1024).countedAs 3395 = some 3 ∧
     (ratelimiterFromPb 1048576 (ratelimiterToPb (.default [] 100 1024))).countedAs 3395 = some 0 ∧
     (Ratelimiter.default [] 100 1024).passesAfter 3395 130 = some 97 := by decide
 
+/-! ### Round 5: the optional parts of the wire schedule -/
+
+/-- **backend_schedule_total.** For EVERY wire schedule — absent, without `weekly_range`, with any
+days absent, with absent bounds, with an unknown time zone — the repaired converter returns a value
+or an error; it never panics. -/
+theorem backend_schedule_total (x : Option WireSchedule) : backendSchedule x ≠ .panic := by
+  cases x with
+  | none => simp [backendSchedule]
+  | some x =>
+    obtain ⟨tz, weekly⟩ := x
+    cases tz with
+    | none => simp [backendSchedule]
+    | some tz =>
+      simp only [backendSchedule]
+      cases weekConv (weekly.getD emptyWeek) <;> simp
+
+/-- **backend_schedule_absent_week_spec.** A schedule without `weekly_range` is the schedule of the
+default message (proto3): no day has a pause interval, the time zone is kept. -/
+theorem backend_schedule_absent_week_spec (tz : Nat) :
+    backendSchedule (some { tz := some tz, weekly := none }) =
+      .ok (some { sun := none, mon := none, tue := none, wed := none, thu := none, fri := none,
+                  sat := none, tz := tz }) ∧
+    backendSchedule (some { tz := some tz, weekly := none }) =
+      backendSchedule (some { tz := some tz, weekly := some emptyWeek }) := by
+  constructor <;> rfl
+
+/-- **backend_schedule_absent_week_counterexample.** The converter of the pinned tree panicked on
+exactly that legal message … -/
+theorem backend_schedule_absent_week_counterexample :
+    backendScheduleOld (some { tz := some 0, weekly := none }) = .panic ∧
+    backendSchedule (some { tz := some 0, weekly := none }) ≠ .panic := by
+  constructor
+  · rfl
+  · exact backend_schedule_total _
+
+/-- … and on nothing else: the repair changed no other answer. -/
+theorem backend_schedule_old_agrees (x : Option WireSchedule)
+    (h : ∀ y, x = some y → y.tz = none ∨ y.weekly ≠ none) :
+    backendScheduleOld x = backendSchedule x := by
+  cases x with
+  | none => rfl
+  | some y =>
+    obtain ⟨tz, weekly⟩ := y
+    cases tz with
+    | none => rfl
+    | some t =>
+      cases weekly with
+      | none => exact absurd rfl ((h _ rfl).resolve_left (by simp))
+      | some w => rfl
+
+/-- **backend_schedule_cache_roundtrip.** Whatever schedule the converter delivers is read back
+from the file cache unchanged. -/
+theorem backend_schedule_cache_roundtrip (x : Option WireSchedule) (s : Schedule)
+    (_h : backendSchedule x = .ok (some s)) : scheduleFromPb (scheduleToPb s) = s := schedule_rt s
+
+/-- Absent bounds: a day without `start` begins at midnight; a day with neither bound is the first
+minute; an end before the start fails the schedule (the profile is skipped). -/
+example : dayConv ⟨none, some 600⟩ = some ⟨0, 601⟩ ∧ dayConv ⟨none, none⟩ = some ⟨0, 1⟩ ∧
+    dayConv ⟨some 1439, some 1439⟩ = some ⟨1439, 1440⟩ ∧ dayConv ⟨some 60, none⟩ = none ∧
+    dayConv ⟨some 0, some 1440⟩ = none := by decide
+
+example : backendSchedule (some { tz := some 1, weekly := some [none, some ⟨none, some 600⟩, none, none, none, none, some ⟨some 60, some 61⟩] }) =
+    .ok (some { sun := none, mon := some ⟨0, 601⟩, tue := none, wed := none, thu := none, fri := none,
+                sat := some ⟨60, 62⟩, tz := 1 }) := by decide
+
 end Agd.ProfileCache
+
+namespace Agd.ProfileDB
+open Agd.ProfileCache in
+/-- **absent_week_old_worker_dead.** Both halves together, on the pinned tree: the tick whose answer
+holds a schedule without `weekly_range` panics, and from then on NOTHING the backend sends is ever
+applied (`later` arbitrary) — the look-ups answer from the data before that tick for ever; with the
+repaired converter the same tick is an ordinary event of the history. -/
+theorem absent_week_old_worker_dead (pre : List Ev) (e : Ev) (later : List Ev) :
+    let bad : Option WireSchedule := some { tz := some 0, weekly := none }
+    runEv (pre ++ workerEvs (tickOf (decide (backendScheduleOld bad = .panic)) e :: later.map Tick.ev)) = runEv pre ∧
+    runEv (pre ++ workerEvs (tickOf (decide (backendSchedule bad = .panic)) e :: later.map Tick.ev)) =
+      runEv (pre ++ e :: later) := by
+  constructor
+  · have := worker_panic_stops_sync pre [] later
+    simpa [tickOf, backendScheduleOld] using this
+  · have h : ∀ l : List Ev, workerEvs (l.map Tick.ev) = l := by
+      intro l
+      induction l with
+      | nil => simp [workerEvs]
+      | cons a l ih => simp [workerEvs, ih]
+    simp [tickOf, backendSchedule, emptyWeek, weekConv, workerEvs, h]
+end Agd.ProfileDB
 
 #print axioms Agd.ProfileDB.lookup_refines_spec
 #print axioms Agd.ProfileDB.lookup_unowned_not_found
@@ -873,6 +984,14 @@ end Agd.ProfileCache
 #print axioms Agd.ProfileCache.backendRate_estIs
 #print axioms Agd.ProfileCache.restored_limiter_counts_alike
 #print axioms Agd.ProfileCache.estimate_wiring_necessary
+#print axioms Agd.ProfileCache.backend_schedule_total
+#print axioms Agd.ProfileCache.backend_schedule_absent_week_spec
+#print axioms Agd.ProfileCache.backend_schedule_absent_week_counterexample
+#print axioms Agd.ProfileCache.backend_schedule_old_agrees
+#print axioms Agd.ProfileCache.backend_schedule_cache_roundtrip
+#print axioms Agd.ProfileDB.worker_panic_stops_sync
+#print axioms Agd.ProfileDB.worker_without_panic_applies_all
+#print axioms Agd.ProfileDB.absent_week_old_worker_dead
 #print axioms Agd.ProfileCache.load_decision_spec
 #print axioms Agd.ProfileCache.store_kill_old_or_new
 #print axioms Agd.Tie.TrC14.translation_complete
